@@ -147,6 +147,13 @@ def _is_512(t):
 
 def _cap_ok(cap):
     cap = norm(cap)
+    if cap[0] == 'phi':
+        rs = [_cap_ok(x) for x in cap[1]]
+        if all(r[0] for r in rs):
+            return True, 'capacity = ' + ' | '.join(r[1] for r in rs)
+        return False, [r[1] for r in rs if not r[0]][0]
+    if cap[0] == 'field' and cap[1][0] == 'payload' and cap[1][2] == 'Some' and peel(cap[1][1])[0] == 'param':
+        return True, 'given capacity (Some payload of the parameter)'
     if _is_512(cap):
         return True, 'default capacity is 512'
     if cap[0] == 'param':
@@ -189,6 +196,8 @@ def rule_lock_discipline(ctx, rep, rid, methods=('emit', 'flush')):
                 continue
             b = cad.bodies[items[meth]]
             rep.analysed(b)
+            # private / pub(crate) helpers are spliced; the writer's own Write impl stays a call (it is the event)
+            b = inl(cad, b, never=lambda x: x.impl_trait == WRITE_TRAIT and x.impl_self and type_head(x.impl_self) == MLW)
             T = Terms(b)
             locks = [bi for bi, t in b.calls() if callee_is(t, 'Mutex::lock', 'Mutex::try_lock', 'Mutex::get_mut',
                                                             'RwLock::write', 'RwLock::try_write') and not b.blocks[bi]['cleanup']]
